@@ -468,6 +468,78 @@ def case_affine_translation(case):
     return {"v": v[:4], "t": t, "o": repr((N, i, pfield, len(trs), trs[0].tolist())), "nt": True}
 
 
+# composite shapes of the Point an affine map is applied to: every tuple over {1, 2, 3} of length 0..3
+# (length-1 axes in every position, alone and nested between longer axes)
+COMPOSITE_POINT_SHAPES = [list(s) for r in range(4) for s in itertools.product((1, 2, 3), repeat=r)]
+
+
+@functools.lru_cache(maxsize=None)
+def composite_maps(N):
+    """a few invertible integer maps (non-symmetric where N >= 2) and translations without zero entries"""
+    if N == 1:
+        maps = [[[2.0]], [[-0.5]]]
+    else:
+        fam = linear_alphabet(N, True)
+        maps = [M for M in fam if M != np.array(M).T.tolist()][:2]
+        S = [[float((a == b) * (a + 2) + (b == a + 1) * -1.0) for b in range(N)] for a in range(N)]
+        maps.append(S)
+    trs = [[float(1 + 0.5 * a) for a in range(N)], [float((-1) ** a * (a + 1)) for a in range(N)]]
+    return maps, trs
+
+
+@_quiet
+def case_affine_composite(case):
+    """ONE Point of composite shape `shape` (members = consecutive vectors of the complete alphabet product, starting at
+    `off`), mapped by affine linear maps (all three layouts) and translations of chart i: the image keeps the composite
+    shape (homogeneous data shape + (N+1,), affine data shape + (N,)) and is the map applied member by member."""
+    from geometry_tools import projective
+    N, i, field = case["N"], case["i"], case["field"]
+    shape = tuple(case["shape"])
+    pool = _vectors(field, N, case["size"])
+    cnt = int(np.prod(shape, dtype=int))
+    X = pool[[(case["off"] + j) % len(pool) for j in range(cnt)]].reshape(shape + (N,))
+    ones = sum(1 for s in shape if s == 1)
+    scls = "rank%d/%s" % (len(shape), "no-unit-axis" if ones == 0 else ("all-unit-axes" if ones == len(shape) else "some-unit-axes"))
+    maps, trs = composite_maps(N)
+    todo = []
+    for Lm in maps:
+        Lf = np.array(Lm, dtype=float)
+        todo.append(("affine_linear_map", "default", lambda Lf=Lf: projective.affine_linear_map(Lf.copy(), i), X @ Lf.T, Lm))
+        todo.append(("affine_linear_map", "columns", lambda Lf=Lf: projective.affine_linear_map(Lf.copy(), i, column_vectors=True), X @ Lf.T, Lm))
+        todo.append(("affine_linear_map", "rows", lambda Lf=Lf: projective.affine_linear_map(Lf.copy(), i, column_vectors=False), X @ Lf, Lm))
+    for tv in trs:
+        tf = np.array(tv, dtype=float)
+        todo.append(("affine_translation", "vector", lambda tf=tf: projective.affine_translation(tf.copy(), i), X + tf, tv))
+    v, t = [], 0
+    seen = set()
+    for fname, variant, make, want, param in todo:
+        T = make()
+        P = projective.Point(X.copy(), chart_index=i)
+        img = T @ P
+        t += 3
+        pd = np.asarray(img.proj_data)
+        key = None
+        if pd.shape != shape + (N + 1,):
+            key = "%s/composite-shape/proj_data/%s" % (fname, scls)
+            msg = "homogeneous data of the image has shape %r, expected %r" % (pd.shape, shape + (N + 1,))
+        else:
+            raised, Y = _raises_geometry_error(lambda: img.affine_coords(chart_index=i))
+            t += 1
+            if raised:
+                key = "%s/leaves-chart/composite/%s" % (fname, scls)
+                msg = "an image point left the chart"
+            elif np.asarray(Y).shape != want.shape:
+                key = "%s/composite-shape/affine_coords/%s" % (fname, scls)
+                msg = "affine coordinates of the image have shape %r, expected %r" % (np.asarray(Y).shape, want.shape)
+            elif not _maxerr(Y, want) <= TAU * (1.0 + float(np.max(np.abs(want)))):
+                key = "%s/action/composite/%s/%s" % (fname, variant, scls)
+                msg = "chart action differs from the map applied member by member by %.3g" % _maxerr(Y, want)
+        if key is not None and key not in seen:
+            seen.add(key)
+            v.append(_V(key, "N=%d chart %d, %s points of composite shape %r, %s(%r) [%s]: %s" % (N, i, field, list(shape), fname, param, variant, msg)))
+    return {"v": v[:4], "t": t, "o": repr((N, i, field, list(shape), case["off"])), "nt": True}
+
+
 @_quiet
 def case_hyperplane_transform(case):
     """a block of integer normals of R^(N+1); points = all of {-1,0,1}^(N+1) minus 0."""
@@ -1453,6 +1525,21 @@ def run(ctx):
                 domains={"complex translations per N": [len(ctrs[N]) for N in range(1, 6)],
                          "entries": "{0, i, -1+0.5i, 2} (quick N>=4: {0, i, 2}), complete product, handed over as a complex array",
                          "combinations": ["real translation, complex points", "complex translation, real points", "complex translation, complex points"]}, chunk=4)
+
+    # one Point of every composite shape over {1,2,3}^(0..3) (length-1 axes included), both tiers the same bounds
+    ctx.assume("affine maps on composite Points: a single (non-composite) Transformation applied to a Point of composite shape s acts "
+               "member by member and the image has composite shape s (s ranges over every tuple over {1,2,3} of length 0..3)")
+    comp_pt_cases = []
+    for N in range(1, 6):
+        for i in range(N + 1):
+            for field in ("real", "complex"):
+                size = min(alphabet_size(field, N, True), 4)
+                for si, shape in enumerate(COMPOSITE_POINT_SHAPES):
+                    comp_pt_cases.append({"N": N, "i": i, "field": field, "shape": shape, "size": size, "off": 1 + seed + 7 * si})
+    ctx.product("affine-maps-composite-point-shapes", "checks.c16:case_affine_composite", comp_pt_cases,
+                domains={"N": "1..5", "charts": "0..N", "fields": ["real", "complex"], "composite shapes": COMPOSITE_POINT_SHAPES,
+                         "maps per N": "2-3 invertible integer / dyadic maps (non-symmetric for N >= 2) x {default, columns, rows} and 2 translations",
+                         "members": "consecutive vectors of the complete alphabet product (first <= 4 letters), offset by seed and shape index"}, chunk=32)
 
     hp_cases = []
     for N in range(1, 6):
